@@ -29,4 +29,19 @@ theorem C19_src_classes : Src.congr.map (·.1) =
 /-- none of them compares by identity only (an empty list of compared dependencies) -/
 theorem C19_src_compares_something : Src.congr.all (fun c => !c.2.2.isEmpty) = true := by decide
 
+/-- **predicates and processors**: every `Predicate` / `Processor` class is a `@dataclass` whose `==` is the generated
+    one (no `__eq__` / `__ne__` / `__hash__` of its own, no `eq=False`), so it compares exactly the fields; its methods
+    read nothing of `self` but those fields, and none of them (the constructor aside) stores to `self`.  Two predicates
+    that compare equal therefore have equal fields, which is all their `__call__` can see.  (`RegexPredicate.__eq__`
+    compares the compiled pattern object: text *and* flags — seeded change C19-s replaced it by an `__eq__` on the text
+    and no longer checks here.) -/
+theorem C19_src_preds_compared :
+    Src.predCongr.all (fun c => c.2.1 && c.2.2.1 && c.2.2.2.1.all (fun a => c.2.2.2.2.contains a)) = true := by decide
+
+/-- the predicate / processor classes this is established for: all that `Generated/PredSrc.lean` lists -/
+theorem C19_src_pred_classes : Src.predCongr.map (·.1) =
+    ["Choices", "EmailPredicate", "EndsWith", "EqualTo", "ExactItemCount", "ExactLength", "LowerCase", "Max", "MaxItems",
+     "MaxKeys", "MaxLength", "Min", "MinItems", "MinKeys", "MinLength", "MultipleOf", "NotBlank", "RegexPredicate",
+     "StartsWith", "Strip", "UniqueItems", "UpperCase"] := by decide
+
 end Koda
